@@ -84,6 +84,15 @@ def build(spec) -> Problem:
     elif api == "add_variables":
         p = Problem([])
         p.add_variables([tuple(d) for d in spec["doms"]], [v[0] for v in spec["vars"]], [v[1] for v in spec["vars"]])
+    elif api in ("extend", "extends"):
+        # the last variable (own, last shared domain) is added with add_variable / add_variables to a problem built by the
+        # constructor from the others (which may contain views); constraints use the index the call returned for it
+        nd, nv = len(spec["doms"]) - 1, len(spec["vars"]) - 1
+        p = Problem([tuple(d) for d in spec["doms"][:nd]], [v[0] for v in spec["vars"][:nv]], [v[1] for v in spec["vars"][:nv]])
+        ret = p.add_variable(tuple(spec["doms"][nd])) if api == "extend" else p.add_variables([tuple(spec["doms"][nd])])
+        for typ, vs, params in spec["cons"]:
+            p.add_propagator(([int(ret) if v == nv else v for v in vs], K.ALG[typ], list(params)))
+        return p
     else:
         # singleton domains are given as plain ints at even positions and as (v, v) pairs at odd ones: both forms are API
         doms = [int(d[0]) if (d[0] == d[1] and k % 2 == 0) else tuple(d) for k, d in enumerate(spec["doms"])]
